@@ -13,6 +13,7 @@ import argparse, importlib, json, os, sys, traceback
 HERE = os.path.dirname(os.path.abspath(__file__))
 sys.path.insert(0, os.path.join(HERE, "harness"))
 os.environ.setdefault("CUQIPY_VERIF", "1")
+os.environ.setdefault("TQDM_DISABLE", "1")
 os.chdir(HERE)
 
 
